@@ -40,6 +40,12 @@ Lemma data_finish_close s w a k :
   failing (finish_close s w a k) = failing s /\ shut (finish_close s w a k) = shut s.
 Proof. destruct a; [| destruct k |]; repeat split; reflexivity. Qed.
 
+Lemma data_shutdown_tr s :
+  wire (shutdown_tr s) = wire s /\ pending (shutdown_tr s) = pending s /\
+  lin (shutdown_tr s) = lin s /\ pkt (shutdown_tr s) = pkt s /\
+  failing (shutdown_tr s) = failing s /\ (shut s = true -> shut (shutdown_tr s) = true).
+Proof. unfold shutdown_tr. destruct (stalled s); repeat split; auto. Qed.
+
 Lemma release_ws_data ws : forall s,
   wire (release_ws ws s) = wire s /\ pending (release_ws ws s) = pending s /\
   lin (release_ws ws s) = lin s /\ pkt (release_ws ws s) = pkt s /\
@@ -48,9 +54,11 @@ Proof.
   induction ws as [|w ws IH]; intros s; cbn [release_ws].
   - repeat split; auto.
   - destruct (t_pc (tasks s w)); try (repeat split; auto; fail).
-    destruct (IH (finish_close (set_shut s) w a k)) as (A & B & C & D & E & F).
-    destruct (data_finish_close (set_shut s) w a k) as (A' & B' & C' & D' & E' & F').
-    rewrite A, B, C, D, E, A', B', C', D', E'. repeat split; auto.
+    destruct (IH (finish_close (shutdown_tr s) w a k)) as (A & B & C & D & E & F).
+    destruct (data_finish_close (shutdown_tr s) w a k) as (A' & B' & C' & D' & E' & F').
+    destruct (data_shutdown_tr s) as (A2 & B2 & C2 & D2 & E2 & F2).
+    rewrite A, B, C, D, E, A', B', C', D', E', A2, B2, C2, D2, E2. repeat split; auto.
+    intros Hs. apply F. rewrite F'. apply F2. exact Hs.
 Qed.
 
 Lemma release_ws_holder ws : forall s w,
@@ -254,6 +262,10 @@ Proof.
       eapply triple_of_pcu; [ | exact N0 | ds].
       apply quiet_pcu with (s1 := set_failing s0); [|apply pcu_finish].
       unfold quiet. split; [reflexivity | split; [reflexivity | intros ?; reflexivity]].
+    + inversion H; subst. eapply triple_trans; [exact T0|].
+      eapply triple_of_pcu; [ | exact N0 | ds].
+      apply quiet_pcu with (s1 := set_stalled s0); [|apply pcu_finish].
+      unfold quiet. split; [reflexivity | split; [reflexivity | intros ?; reflexivity]].
     + destruct (Nat.eqb t rtid); inversion H; subst; (eapply triple_trans; [exact T0|]).
       * eapply triple_of_pcu; [apply pcu_finish | exact N0 | ds].
       * eapply triple_trans; [apply feed_class|].
@@ -315,6 +327,7 @@ Proof.
     + unfold pcof. cbn. rewrite upd_same. reflexivity.
   - (* PW4 *)
     assert (wr s = Some t) as Ewr by (apply (inv_holder s HI); unfold pcof; rewrite Epc; reflexivity).
+    destruct (stalled s && negb (shut s)); [discriminate|].
     destruct (failing s || shut s) eqn:Efl; inversion H; subst.
     + set (s1 := set_wire s (pkt s + 1)%N (wire s)).
       destruct (release_ws_data (waiters s1) s1) as (A & B & C & D & _).
@@ -358,12 +371,13 @@ Proof.
     assert (neutral (pcof s t) = true) as N by (unfold pcof; rewrite Epc; reflexivity).
     destruct (wr s) eqn:Ewr; inversion H; subst; apply class_of_triple.
     + rewrite <- Ewr. apply enqueue_triple. unfold pcof. rewrite Epc. reflexivity.
-    + eapply triple_trans with (s1 := set_shut s).
-      * apply triple_of_quiet; [|ds]. unfold quiet. split; [reflexivity | split; [reflexivity | intros ?; reflexivity]].
-      * destruct (data_finish_close (set_shut s) t a k) as (A & B & C & D & _).
+    + eapply triple_trans with (s1 := shutdown_tr s).
+      * apply triple_of_quiet; [apply quiet_shutdown_tr|]. destruct (data_shutdown_tr s) as (A & B & C & D & _).
+        unfold data_same. rewrite A, B, C, D. auto.
+      * destruct (data_finish_close (shutdown_tr s) t a k) as (A & B & C & D & _).
         split; [unfold data_same; rewrite A, B, C, D; auto | split].
-        -- apply (wr_of_pcu _ _ _ _ (pcu_finish_close (set_shut s) t a k)).
-        -- eapply hk_of_pcu; [apply pcu_finish_close | exact N].
+        -- apply (wr_of_pcu _ _ _ _ (pcu_finish_close (shutdown_tr s) t a k)).
+        -- eapply hk_of_pcu; [apply pcu_finish_close | rewrite pcof_shutdown_tr; exact N].
   - discriminate.
   - (* PO0 *)
     assert (neutral (pcof s t) = true) as N by (unfold pcof; rewrite Epc; reflexivity).
@@ -429,7 +443,8 @@ Proof.
   - destruct (wr s); inversion H; subst; apply mono_same; reflexivity.
   - discriminate.
   - inversion H; subst. apply mono_same; reflexivity.
-  - destruct (failing s || shut s); inversion H; subst.
+  - destruct (stalled s && negb (shut s)); [discriminate|].
+    destruct (failing s || shut s); inversion H; subst.
     + apply mono_trans with (release (set_wire s (pkt s + 1)%N (wire s)));
         [apply (mono_release (set_wire s (pkt s + 1)%N (wire s))) | apply mono_same; reflexivity].
     + eapply mono_trans; [|apply mono_finish_w].
@@ -437,12 +452,97 @@ Proof.
   - inversion H; subst. apply mono_enter_close.
   - cbv zeta in H. inversion H; subst. destruct (flags_wake s) as (A & B & _). apply mono_same; [exact A | exact B].
   - destruct (wr s); inversion H; subst; [apply mono_same; reflexivity|].
-    eapply mono_trans; [|apply mono_finish_close]. split; [intros A; exact A | intros _; reflexivity].
+    eapply mono_trans; [|apply mono_finish_close]. destruct (data_shutdown_tr s) as (_ & _ & _ & _ & A & B).
+    split; [rewrite A; auto | exact B].
   - discriminate.
   - inversion H; subst. apply mono_same; reflexivity.
   - inversion H; subst. apply mono_same; reflexivity.
   - inversion H; subst. apply mono_same; reflexivity.
   - discriminate.
+Qed.
+
+(* ---- a transport that has stalled stays stalled; `shutd`: shut down, or never going to be ---- *)
+Definition shutd (s : state) : bool := shut s || stalled s.
+
+Lemma stalled_push s t f : stalled (push_item s t f) = stalled s.
+Proof.
+  unfold push_item. destruct (pump_owner s) as [p|]; [|reflexivity].
+  destruct (is_ppwait (t_pc (tasks s p))); [destruct (closed s)|]; reflexivity.
+Qed.
+Lemma stalled_wake s : stalled (wake_pump_closed s) = stalled s.
+Proof.
+  unfold wake_pump_closed. destruct (closed s); [|reflexivity].
+  destruct (pump_owner s) as [p|]; [|reflexivity]. destruct (is_ppwait (t_pc (tasks s p))); reflexivity.
+Qed.
+Lemma stalled_finish_w s t k r : stalled (finish_w s t k r) = stalled s.
+Proof. destruct k, r; reflexivity. Qed.
+Lemma stalled_finish_close s t a k : stalled (finish_close s t a k) = stalled s.
+Proof. destruct a; [| destruct k |]; reflexivity. Qed.
+Lemma stalled_shutdown_tr s : stalled (shutdown_tr s) = stalled s.
+Proof. unfold shutdown_tr. destruct (stalled s) eqn:E; [exact E | exact E]. Qed.
+Lemma shutd_shutdown_tr s : shutd (shutdown_tr s) = true.
+Proof. unfold shutd, shutdown_tr. destruct (stalled s) eqn:E; [rewrite E; apply orb_true_r | reflexivity]. Qed.
+Lemma stalled_enter_close s t a k : stalled (enter_close s t a k) = stalled s.
+Proof. unfold enter_close. destruct (closed s); [apply stalled_finish_close | reflexivity]. Qed.
+Lemma stalled_feed s ev : stalled (feed_ev s ev) = stalled s.
+Proof.
+  unfold feed_ev. destruct (negb (ralive s)); [reflexivity|].
+  destruct ev;
+    repeat match goal with
+           | |- context [match ?x with _ => _ end] => destruct x
+           end; try reflexivity;
+    first [apply stalled_enter_close | rewrite stalled_enter_close; reflexivity].
+Qed.
+Lemma stalled_release_ws ws : forall s, stalled (release_ws ws s) = stalled s.
+Proof.
+  induction ws as [|w ws IH]; intros s; cbn [release_ws]; [reflexivity|].
+  destruct (t_pc (tasks s w)); try reflexivity.
+  rewrite IH, stalled_finish_close. apply stalled_shutdown_tr.
+Qed.
+Lemma stalled_release s : stalled (release s) = stalled s.
+Proof. apply stalled_release_ws. Qed.
+
+Lemma step_stalled s t s' : step s t = Some s' -> stalled s = true -> stalled s' = true.
+Proof.
+  intros H St. unfold step in H.
+  destruct (t_pc (tasks s t)) eqn:Epc.
+  - destruct (t_prog (tasks s t)) as [|c rest]; [discriminate|].
+    unfold start_call in H.
+    set (s0 := set_task s t (with_prog (tasks s t) rest)) in *.
+    assert (stalled s0 = true) as St0 by exact St.
+    destruct c;
+      repeat match type of H with
+             | context [match ?x with _ => _ end] => destruct x
+             end; inversion H; subst; try exact St; try reflexivity.
+    + change (stalled (enter_close s0 t AfterClose WkPlain) = true). rewrite stalled_enter_close. exact St0.
+    + change (stalled (feed_ev s0 ev) = true). rewrite stalled_feed. exact St0.
+    + change (stalled (push_item s0 t (psh_frame n payload)) = true). rewrite stalled_push. exact St0.
+  - destruct (closed s); [|destruct (buffering s)]; inversion H; subst;
+      [rewrite stalled_finish_w; exact St | exact St | exact St].
+  - inversion H; subst. rewrite stalled_finish_w. exact St.
+  - destruct (wr s); inversion H; subst; exact St.
+  - discriminate.
+  - inversion H; subst. exact St.
+  - destruct (stalled s && negb (shut s)); [discriminate|].
+    destruct (failing s || shut s); inversion H; subst.
+    + change (stalled (release (set_wire s (pkt s + 1)%N (wire s))) = true). rewrite stalled_release. exact St.
+    + rewrite stalled_finish_w, stalled_release. exact St.
+  - inversion H; subst. rewrite stalled_enter_close. exact St.
+  - cbv zeta in H. inversion H; subst. change (stalled (wake_pump_closed s) = true). rewrite stalled_wake. exact St.
+  - destruct (wr s); inversion H; subst; [exact St|].
+    rewrite stalled_finish_close, stalled_shutdown_tr. exact St.
+  - discriminate.
+  - inversion H; subst. exact St.
+  - inversion H; subst. exact St.
+  - inversion H; subst. exact St.
+  - discriminate.
+Qed.
+
+Lemma step_shutd s t s' : step s t = Some s' -> shutd s = true -> shutd s' = true.
+Proof.
+  intros H S. unfold shutd in *. apply orb_true_iff in S. apply orb_true_iff. destruct S as [S|S].
+  - left. destruct (step_mono s t s' H) as [_ M]. apply M. exact S.
+  - right. eapply step_stalled; eauto.
 Qed.
 
 Lemma calm_back s t s' : step s t = Some s' -> calm s' -> calm s.
